@@ -12,11 +12,13 @@ impl Python {
     #[verifier::external_body]
     fn add_import(&mut self, module: String, identifier: String)
         ensures final(self).cfg() == old(self).cfg(), imported_of(final(self).imports) == imported_of(old(self).imports).insert((module@, identifier@)),
+            final(self).type_variables == old(self).type_variables,
     { unimplemented!() }
     /// stub for Python::add_imports (imports for the well-known names Url / DateTime): only adds
     #[verifier::external_body]
     fn add_imports(&mut self, tp: &str)
         ensures final(self).cfg() == old(self).cfg(), imported_of(old(self).imports).subset_of(imported_of(final(self).imports)),
+            final(self).type_variables == old(self).type_variables,
     { unimplemented!() }
 }
 /// outlined (T3): `if json_translation_for_type(mapped).is_some() { self.types_for_custom_json_translation.insert(..) }` - bookkeeping
@@ -33,11 +35,11 @@ def _clauses(reach, where):
 
 
 X12 = {
-    'frame': '/*C12: recorded imports are never lost*/ imported_of(old(self).imports).subset_of(imported_of(final(self).imports)),',
+    'frame': '/*C12: recorded imports are never lost*/ imported_of(old(self).imports).subset_of(imported_of(final(self).imports)), /*C12: the recorded type variables are untouched*/ final(self).type_variables == old(self).type_variables,',
     'ty': '/*C12: a type expression that prints List[ / Optional[ / Dict[ / datetime has recorded the import of that name*/ ' + _clauses('reaches(old(self).cfg(), *ty, Kind::%s)', 'final(self)'),
     'gen': _clauses('reaches_any(old(self).cfg(), *base, parameters@, Kind::%s)', 'final(self)'),
     'special': _clauses('reaches_special(old(self).cfg(), *special_ty, Kind::%s)', 'final(self)'),
-    'inv': '\n                    /*C12*/ imported_of(old(self).imports).subset_of(imported_of(self.imports)), ' + ' '.join(
+    'inv': '\n                    /*C12*/ imported_of(old(self).imports).subset_of(imported_of(self.imports)), self.type_variables == old(self).type_variables, ' + ' '.join(
         'forall|k: int| 0 <= k < it.index@ ==> (reaches(c0, #[trigger] parameters@[k], Kind::%s) ==> imported_of(self.imports).contains(("%s"@, "%s"@))),' % (k, m, n) for (k, m, n) in PY_HELPERS),
 }
 
